@@ -423,6 +423,7 @@ type tot struct {
 	st      [2]*station
 	budget  uint64
 	ord     int64
+	marker  string // file written before the worker leaves on a harness error
 }
 
 // judge applies the totality oracle to one (manual, auto) pair of executions; returns a failure kind or "".
@@ -585,6 +586,11 @@ func (t *tot) report(g hostileGroup, st *station, c hostileCase, kind, detail, e
 		}
 	}
 	if kind == "harness" {
+		// the marker tells the coordinator that this worker ended on a harness error, not on a fatal error of the
+		// Go runtime (out of memory, ...), which leaves with the same exit status 2
+		if t.marker != "" {
+			_ = os.WriteFile(t.marker, []byte(detail), 0o644)
+		}
 		core.Fatal("totality: %s (%s) on %q", detail, g.Name, clip(string(req), 200))
 	}
 	// signatures name the root-cause class: the component(s) of the minimised request that matter for the kind
